@@ -25,6 +25,20 @@ type FrameTracer struct {
 	FailedValue int // frames that were entered with value and failed
 	Faults      int
 
+	// Refund is the refund counter recomputed from the step stream for the
+	// last transaction: 15000 per SSTORE that clears a non-zero slot and 24000
+	// per first SELFDESTRUCT of a contract, counted only in frames that did not fail.
+	Refund uint64
+	// ValueTargets: addresses that were the target of a value-bearing CALL or
+	// the beneficiary of a SELFDESTRUCT in the last transaction (whether or not it survived).
+	ValueTargets map[common.Address]bool
+	// End-of-transaction report (last transaction).
+	Ended    bool
+	ExecGas  uint64
+	ExecErr  error
+	TxSteps  int
+	TxSD     int // surviving self-destructs of the last transaction
+
 	// OnStep, if set, sees every step.
 	OnStep func(pc uint64, op byte, gas, cost uint64, stack []*big.Int, memLen int, depth int, err error)
 }
@@ -32,6 +46,7 @@ type FrameTracer struct {
 type tframe struct {
 	failed    bool
 	sd        int
+	refund    uint64
 	withValue bool
 }
 
@@ -41,6 +56,7 @@ func (f *FrameTracer) sync(depth int) {
 		f.stack = f.stack[:len(f.stack)-1]
 		if len(f.stack) > 0 && !child.failed {
 			f.stack[len(f.stack)-1].sd += child.sd
+			f.stack[len(f.stack)-1].refund += child.refund
 		}
 		if child.failed && child.withValue {
 			f.FailedValue++
@@ -58,6 +74,8 @@ func (f *FrameTracer) sync(depth int) {
 func (f *FrameTracer) CaptureStart(from, to common.Address, call bool, input []byte, gas uint64, value *big.Int) error {
 	f.stack = f.stack[:0]
 	f.nextValue = value != nil && value.Sign() != 0
+	f.Refund, f.Ended, f.ExecGas, f.ExecErr, f.TxSteps, f.TxSD = 0, false, 0, nil, 0, 0
+	f.ValueTargets = map[common.Address]bool{}
 	f.sync(1)
 	return nil
 }
@@ -66,6 +84,7 @@ func (f *FrameTracer) CaptureState(env *vm.EVM, pc uint64, op vm.OpCode, gas, co
 	f.sync(depth)
 	f.nextValue = false
 	f.Steps++
+	f.TxSteps++
 	cur := f.stack[depth-1]
 	st := stack.Data()
 	if err != nil {
@@ -76,6 +95,19 @@ func (f *FrameTracer) CaptureState(env *vm.EVM, pc uint64, op vm.OpCode, gas, co
 		case SELFDESTRUCT:
 			cur.sd++
 			f.ExecutedSD++
+			if !env.StateDB.HasSuicided(contract.Address()) {
+				cur.refund += 24000
+			}
+			if len(st) >= 1 {
+				f.ValueTargets[common.BigToAddress(st[len(st)-1])] = true
+			}
+		case SSTORE:
+			if len(st) >= 2 {
+				cur0 := env.StateDB.GetState(contract.Address(), common.BigToHash(st[len(st)-1]))
+				if cur0 != (common.Hash{}) && st[len(st)-2].Sign() == 0 {
+					cur.refund += 15000
+				}
+			}
 		case CREATE:
 			f.Creates++
 			if len(st) >= 1 && st[len(st)-1].Sign() != 0 {
@@ -86,6 +118,9 @@ func (f *FrameTracer) CaptureState(env *vm.EVM, pc uint64, op vm.OpCode, gas, co
 			if len(st) >= 3 && st[len(st)-3].Sign() != 0 {
 				f.ValueCalls++
 				f.nextValue = byte(op) == CALL
+				if byte(op) == CALL {
+					f.ValueTargets[common.BigToAddress(st[len(st)-2])] = true
+				}
 			}
 		}
 	}
@@ -111,10 +146,13 @@ func (f *FrameTracer) CaptureEnd(output []byte, gasUsed uint64, t time.Duration,
 		}
 		if !top.failed {
 			f.SurvivingSD += top.sd
+			f.TxSD = top.sd
+			f.Refund = top.refund
 		} else if top.withValue {
 			f.FailedValue++
 		}
 	}
 	f.stack = f.stack[:0]
+	f.Ended, f.ExecGas, f.ExecErr = true, gasUsed, err
 	return nil
 }
